@@ -96,11 +96,12 @@ def shapes():
 def segment(render, x_marker, x_real):
     """Cut out what the library emitted for the leaf: render once with a marker
     leaf of the same type to learn the context, once with the real leaf."""
-    m = render(x_marker)
+    # str(): a changed library may hand back a str-like object; what matters is the text it denotes
+    m = str(render(x_marker))
     if m.count(MARK) != 1:
         return None
     pre, suf = m.split(MARK)
-    out = render(x_real)
+    out = str(render(x_real))
     if not (out.startswith(pre) and out.endswith(suf) and len(out) >= len(pre) + len(suf)):
         return None
     return out[len(pre): len(out) - len(suf)]
@@ -186,6 +187,13 @@ class C02(Prop):
         for s in gamma.HOSTILE:
             for nm in names:
                 gens.append({"kind": "child", "s": cps(s), "shape": nm})
+        # history dependence: the same string escaped as an attribute value first, then as text
+        for j, s in enumerate(gamma.HOSTILE + ["Tom & \"Jerry\"", "a<b 'c'", "x & y\nz"]):
+            gens.append({"kind": "fn", "s": cps("p" + str(j) + s), "prime": True})
+            gens.append({"kind": "child", "s": cps("q" + str(j) + s), "shape": names[j % len(names)], "prime": True})
+        for _ in range(200 if tier == "quick" else 4000):
+            s = gamma.rand_text(rnd, rnd.choice([6, 20, 60]))
+            gens.append({"kind": rnd.choice(["fn", "child"]), "s": cps(s), "shape": rnd.choice(names), "prime": True})
         for n_ in [0, 1, -1, 7, 10 ** 20, 2.5, -0.0, 1e-7, 1e22, float("inf"), True, False]:
             for nm in ("only_block", "second_after_inline", "append", "nested_lists", "insert0"):
                 gens.append({"kind": "num", "n": repr(n_), "shape": nm})
@@ -216,6 +224,10 @@ class C02(Prop):
     def execute(self, g):
         H = _lib()
         k = g["kind"]
+        if g.get("prime") and "s" in g:
+            # the same text is first escaped for the OTHER context in this process
+            H.html_escape(uncps(g["s"]), attr=True)
+            H.Tag("i", title=uncps(g["s"])).get_html_string()
         if k == "fn":
             s = uncps(g["s"])
             out = H.html_escape(s)
